@@ -110,10 +110,11 @@ function unquote_string(quoted_str) {
     // It's possible to use eval here to unqoute the quoted_column_name, but it would be a little barbaric, let's do it manually instead
     if (!quoted_str || quoted_str.length < 2)
         return null;
-    if (quoted_str[0] == "'" && quoted_str[quoted_str.length - 1] == "'") {
-        return quoted_str.substring(1, quoted_str.length - 1).replace(/\\'/g, "'").replace(/\\\\/g, "\\");
-    } else if (quoted_str[0] == '"' && quoted_str[quoted_str.length - 1] == '"') {
-        return quoted_str.substring(1, quoted_str.length - 1).replace(/\\"/g, '"').replace(/\\\\/g, "\\");
+    let quote_char = quoted_str[0];
+    if ((quote_char == "'" || quote_char == '"') && quoted_str[quoted_str.length - 1] == quote_char) {
+        // Undo, left to right in a single pass, the escapes which js_string_escape_column_name() produces: \\ \' \" \n \r \t
+        let control_chars = {'n': '\n', 'r': '\r', 't': '\t'};
+        return quoted_str.substring(1, quoted_str.length - 1).replace(/\\([\\'"nrt])/g, (_m, c) => control_chars.hasOwnProperty(c) ? control_chars[c] : c);
     } else {
         return null;
     }
